@@ -423,7 +423,7 @@ func DerivesFrom(v ssa.Value, origin func(ssa.Value) bool, pure map[string]bool)
 			return rec(x.X) || rec(x.Y)
 		case *ssa.Call:
 			n := CalleeName(&x.Call)
-			if pure != nil && pure[n] {
+			if pure != nil && (pure[n] || pure["*"]) {
 				for _, a := range CallArgs(&x.Call) {
 					if rec(a) {
 						return true
